@@ -3,7 +3,8 @@
    <content expr> of <send> (processSend / processParams / elementAsData), delivery of an event whose target does not
    exist -- immediately (InterpreterImpl::enqueue) and from the timer thread (BasicDelayedEventQueue::timerCallback ->
    InterpreterImpl::eventReady) --, the arguments of <invoke> (BasicContentExecutor::invoke, caught by the
-   micro-steppers), and DataModel::setEvent at the two dequeue operations.  Model only; one switch per confirmed defect.
+   micro-steppers), the initialisation of a <data> element (InterpreterImpl::initData, in an invoked session also from
+   the values handed over with the invocation), and DataModel::setEvent at the two dequeue operations.  Model only; one switch per confirmed defect.
 
    Expressions are abstracted to what their evaluation gives ([evr]); a theorem "for all evr" is a theorem for all
    expressions in all datamodel states.  Blocks of executable content are Exec.v's. *)
@@ -149,7 +150,10 @@ Inductive action :=
 | ADone (sid : bytes) (params : list evr) (content : option evr)                        (* raiseDoneEvent *)
 | ADequeueInt                                          (* dequeueInternal: setEvent *)
 | ADequeueExt (fin : option block)                     (* dequeueExternal: setEvent, then the <finalize> of the sender *)
-| AInvoke (id : N) (args : list evr) (type_known : bool).
+| AInvoke (id : N) (args : list evr) (type_known : bool)
+| ADataInit (r : evr).                                 (* InterpreterImpl::initData of one <data>: from its expr / src / children or,
+                                                          in an invoked session, from the <param> / namelist value of that name;
+                                                          [r] is what DataModel::init makes of the value *)
 
 Definition do_action (a : action) (st : fstate) : outcome * fstate :=
   match a with
@@ -215,6 +219,9 @@ Definition do_action (a : action) (st : fstate) : outcome * fstate :=
       if all_ok args && type_known then (Ok, add_invoked id st)
       else if fx_invoke_error_only_logged v then (Ok, st)
       else (ErrRaised, raise_err err_exec st)
+  | ADataInit r =>
+      (* try { _dataModel.init(..) } catch (ErrorEvent e) { enqueueInternal(e) } around all three sources of the value *)
+      if evr_ok r then (Ok, st) else (ErrRaised, raise_err err_exec st)
   end.
 
 (* a sequence of actions; the first escape ends it (the embedder sees the exception / the process is gone) *)
@@ -251,6 +258,7 @@ Definition fails (a : action) (st : fstate) : bool :=
                        | _, _ => false
                        end
   | AInvoke _ args type_known => negb (all_ok args && type_known)
+  | ADataInit r => negb (evr_ok r)
   end.
 
 End Run.
